@@ -38,4 +38,37 @@ MUTANTS = {
         "edits": [("Lib/fontTools/ttLib/ttFont.py", "            table.ERROR = file.getvalue()\n            self.tables[tag] = table\n            table.decompile(data, self)", "            table.ERROR = file.getvalue()\n            self.tables[tag] = table\n            table.decompile(data[:-1], self)")],
         "check": ["C20", "--tier", "quick", "--only", "payload"],
     },
+    # ---- C19
+    "c19_clash_without_lower": {
+        "edits": [("Lib/fontTools/ufoLib/filenames.py", "    if fullName.lower() in existing:\n        fullName = handleClash1(userName, existing, prefix, suffix)", "    if fullName in existing:\n        fullName = handleClash1(userName, existing, prefix, suffix)")],
+        "check": ["C19", "--tier", "quick", "--only", "ufo,names"],
+    },
+    "c19_identical_shortcut_wrong_file": {
+        "edits": [("Lib/fontTools/ufoLib/glifLib.py", "            and data == self.fs.readbytes(fileName)", "            and len(data) == len(self.fs.readbytes(fileName))")],
+        "check": ["C19", "--tier", "quick", "--only", "ufo"],
+    },
+    "c19_rename_keeps_old_mapping": {
+        "edits": [("Lib/fontTools/ufoLib/__init__.py", "        if layerName is not None:\n            del self.layerContents[layerName]\n        self.layerContents[newLayerName] = newDirectory", "        self.layerContents[newLayerName] = newDirectory")],
+        "check": ["C19", "--tier", "quick", "--only", "ufo"],
+    },
+    "c19_filename_clip_before_reserved": {
+        "edits": [("Lib/fontTools/ufoLib/filenames.py", "        escapedName = \".\".join(parts)[:sliceLength]", "        escapedName = \".\".join(parts)")],
+        "check": ["C19", "--tier", "quick", "--only", "ufo,names"],
+    },
+    "c19_designspace_drops_attribute": {
+        "edits": [("Lib/fontTools/designspaceLib/__init__.py", '        if axisObject.hidden:\n            axisElement.attrib["hidden"] = "1"', '        if False:\n            axisElement.attrib["hidden"] = "1"')],
+        "check": ["C19", "--tier", "quick", "--only", "designspace"],
+    },
+    "c19_plist_string_rstrip": {
+        "edits": [("Lib/fontTools/misc/plistlib/__init__.py", "    el = etree.Element(\"string\")\n    el.text = value\n    return el", "    el = etree.Element(\"string\")\n    el.text = value.rstrip()\n    return el")],
+        "check": ["C19", "--tier", "quick", "--only", "plist"],
+    },
+    "c19_glif_anchor_color_dropped": {
+        "edits": [("Lib/fontTools/ufoLib/glifLib.py", '        color = anchor.get("color")\n        if color is not None:\n            attrs["color"] = color', '        color = None')],
+        "check": ["C19", "--tier", "quick", "--only", "ufo"],
+    },
+    "c19_map_backward_off": {
+        "edits": [("Lib/fontTools/designspaceLib/__init__.py", "        backward = sorted((design, user) for user, design in axis_map)", "        backward = sorted((design, user + (1 if user > self.default else 0)) for user, design in axis_map)")],
+        "check": ["C19", "--tier", "quick", "--only", "designspace"],
+    },
 }
